@@ -41,9 +41,36 @@ fn reachable<C>(t: &ConstraintTree<C>, truth: &impl Fn(&C) -> bool) -> Vec<usize
     res
 }
 
+/// nodes reached when only the first satisfied child of the root is followed (what the builder does
+/// with a tree that sets make_det), all satisfied edges below
+fn reachable_det<C>(t: &ConstraintTree<C>, truth: &impl Fn(&C) -> bool) -> Vec<usize> {
+    let mut res = vec![0];
+    let mut todo = vec![0];
+    while let Some(n) = todo.pop() {
+        for (i, c) in t.children(n) {
+            if truth(c) && !res.contains(&i) {
+                res.push(i);
+                todo.push(i);
+                if n == 0 {
+                    break;
+                }
+            }
+        }
+    }
+    res
+}
+
 /// labels valid; faithful under the given valuation; returns a description of the first defect
 fn faithful_under<C>(t: &ConstraintTree<C>, cs: &[C], truth: &impl Fn(&C) -> bool) -> Option<String> {
-    let reach = reachable(t, truth);
+    faithful_with(t, cs, truth, reachable(t, truth), "reachable")
+}
+
+/// the same under the deterministic reading of the root
+fn det_faithful_under<C>(t: &ConstraintTree<C>, cs: &[C], truth: &impl Fn(&C) -> bool) -> Option<String> {
+    faithful_with(t, cs, truth, reachable_det(t, truth), "reached under the deterministic reading of the root")
+}
+
+fn faithful_with<C>(t: &ConstraintTree<C>, cs: &[C], truth: &impl Fn(&C) -> bool, reach: Vec<usize>, how: &str) -> Option<String> {
     let mut in_tree = vec![false; cs.len()];
     let mut reached = vec![false; cs.len()];
     for n in 0..t.n_nodes() {
@@ -60,11 +87,12 @@ fn faithful_under<C>(t: &ConstraintTree<C>, cs: &[C], truth: &impl Fn(&C) -> boo
     for i in 0..cs.len() {
         if in_tree[i] && reached[i] != truth(&cs[i]) {
             return Some(format!(
-                "constraint {} is {} but a node labelled {} is {}",
+                "constraint {} is {} but a node labelled {} is {}{}",
                 i,
                 if truth(&cs[i]) { "satisfied" } else { "not satisfied" },
                 i,
-                if reached[i] { "reachable" } else { "not reachable" }
+                if reached[i] { "" } else { "not " },
+                how
             ));
         }
     }
@@ -292,12 +320,22 @@ fn all_assignments(n_keys: usize, n_vals: usize, f: &mut impl FnMut(&[usize]) ->
 
 fn check_pg_faithful(t: &ConstraintTree<PGConstraint>, cs: &[PGConstraint], pool: &[PGIndexKey], what: &str, replay: &str, o: &mut Out) {
     let mut bad: Option<String> = None;
+    let ne_root_det = t.make_det && t.children(0).count() >= 2 && t.children(0).all(|(_, c)| matches!(c.predicate(), PGPredicate::IsNotEqual { .. }));
     for bits in [0u64, u64::MAX, 0x5555_5555_5555_5555, 0x1234_5678_9abc_def0] {
         all_assignments(pool.len(), 3, &mut |val| {
             let truth = |c: &PGConstraint| pg_truth(c, pool, val, bits);
             if let Some(msg) = faithful_under(t, cs, &truth) {
                 bad = Some(format!("{} unfaithful under the node assignment {:?}: {}", what, val, msg));
                 return false;
+            }
+            // a make_det tree whose root offers only not-equal constraints (the powerset tree): the
+            // children of the root are not exclusive, but the subtree of the first satisfied one
+            // repeats the others, under every node assignment
+            if ne_root_det {
+                if let Some(msg) = det_faithful_under(t, cs, &truth) {
+                    bad = Some(format!("{} (make_det set) under the node assignment {:?}: {}", what, val, msg));
+                    return false;
+                }
             }
             true
         });
@@ -307,6 +345,9 @@ fn check_pg_faithful(t: &ConstraintTree<PGConstraint>, cs: &[PGConstraint], pool
     }
     if let Some(msg) = bad {
         o.violation(msg, replay.to_string());
+    }
+    if ne_root_det {
+        o.count("kind", "powerset tree, deterministic reading under every node assignment");
     }
 }
 
